@@ -106,7 +106,8 @@ def sweep(ctx: Ctx):
     for _ in range(12 if ctx.quick else 150):
         c = ctx.rng.choice(classes)
         p, _, _ = c03.sample_params(c, ctx.rng)
-        plan.append((c, p, ctx.rng.choice(rules), ctx.rng.choice([3, 5, 6, 9, 10, 21])))
+        rule = ctx.rng.choice(rules)
+        plan.append((c, p, rule, ctx.rng.choice([3, 5, 9, 21] if rule == "Simpson" else [3, 5, 6, 9, 10, 21])))
     n = 0
     for cname, p, rule, npt in plan:
         oned = getattr(OG, rule)(npt)
@@ -144,7 +145,7 @@ def sweep(ctx: Ctx):
             if not val > 0:
                 first.setdefault("positive_integral", (desc + ": integral of exp(-r)", val, "> 0"))
     # exactness transport: Gauss-Legendre mapped linearly to [a,b]
-    for npt in ([2, 5, 8] if ctx.quick else range(1, 16)):
+    for npt in ([2, 5, 8] if ctx.quick else range(2, 16)):
         a, b = Fraction(ctx.rng.randint(-8, 8), 4), None
         b = a + Fraction(ctx.rng.randint(1, 24), 4)
         new = transformed(RT.LinearFiniteRTransform(float(a), float(b)), OG.GaussLegendre(npt))
@@ -195,15 +196,21 @@ OBL_OF = {"weights_nonneg": "weights_nonneg_decreasing", "jacobian_magnitude": "
 
 
 def run(ctx: Ctx):  # noqa: F811
-    sigs = gen(ctx)
-    ctx.copy_coq("C04")
-    ctx.copy_coq("C03/C03_proofs_simple.v")
-    status = ctx.coq_build()
-    ctx.register_props(status)
+    gen_err, sigs, status = None, None, {}
+    try:
+        sigs = gen(ctx)
+    except P.Unsupported as e:  # translator fails closed: the tie is broken; still search the implementation for a failing input
+        gen_err = e
+    if gen_err is None:
+        ctx.copy_coq("C04")
+        ctx.copy_coq("C03/C03_proofs_simple.v")
+        status = ctx.coq_build()
+        ctx.register_props(status)
     if status.get("C04_refuted_sign.v"):
         ctx.mark_refuted("weights_nonneg_decreasing", "weights_nonneg_refuted_lemma")
     fails = sweep(ctx)
     attached = False
+    cands = []
     for kind, (desc, obs, exp) in fails.items():
         obl = OBL_OF.get(kind)
         ob = ctx.obligations.get(obl) if obl else None
@@ -214,8 +221,14 @@ def run(ctx: Ctx):  # noqa: F811
             name = obl
         else:
             name = f"sweep_{kind}"
-        ctx.fail(name, f"{kind}:{desc}", round(obs, 9) if isinstance(obs, float) else obs,
-                 f"{desc}: {kind} violated: observed {obs}, expected {exp}", {"reproduce": desc, "expected": exp})
+        key, ob_ = f"{kind}:{desc}", (round(obs, 9) if isinstance(obs, float) else obs)
+        text, rp = f"{desc}: {kind} violated: observed {obs}, expected {exp}", {"reproduce": desc, "expected": exp}
+        if gen_err is not None and not ctx.is_known(key, ob_):
+            cands.append((key, ob_, text, rp))
+        else:
+            ctx.fail(name, key, ob_, text, rp)
+    if gen_err is not None:
+        ctx.broken_tie("translator(rtransform.py)", gen_err, cands)
     if status.get("C04_gen.v") and status.get("C03_gen.v"):
         correspondence(ctx, sigs)
     ctx.cov["rule"] = ("sweep: random (transform class, admissible parameters, 1D rule, n) - nodes mapped, weights = |Jacobian| * w, signs, domain, positive "
